@@ -1,17 +1,20 @@
-(* Proofs/ExecLoopProofs.v -- a counted instruction, for EVERY count: MVL (m),(n) (block move inside internal memory) with no
-   prefix and with each of the 15 prefixes.  The lifted IL is a label/if/goto loop around a byte move and two wrapping
+(* Proofs/ExecLoopProofs.v -- counted instructions, for EVERY count: MVL (m),(n) and MVLD (m),(n) (ascending / descending block
+   move inside internal memory) with no prefix and with each of the 15 prefixes.  The lifted IL is a label/if/goto loop around a byte move and two wrapping
    address updates; the loop is unrolled by induction on the count register I, so the statement holds for I = 0 .. 65535
    with no bound on the number of iterations.  The result is compared with the documented block move (Spec.block_move). *)
-From Coq Require Import ZArith NArith List Bool Lia.
+From Coq Require Import ZArith NArith List Bool Lia Znumtheory.
 From BE Require Import Model.TableTypes Gen.Tables Model.Regs Model.Decode Model.IL Model.Lift Model.Static Model.Spec
   Model.Emu Proofs.AluProofs Proofs.ExecProofs Proofs.AccessProofs Proofs.ExecMemProofs Proofs.ExecPtrProofs.
 Import ListNotations.
 Open Scope Z_scope.
 
 (* ---- the program ------------------------------------------------------------------------------- *)
+Section Loop.
+Variable dec : bool.       (* false: MVL (addresses ascend), true: MVLD (addresses descend) *)
+
 Definition upd_e (t : reg) : expr :=
   EBin B_ADD 3 F0 (EConst 3 1048576)
-    (EBin B_AND 3 F0 (EBin B_SUB 3 F0 (EBin B_ADD 3 F0 (EReg 3 t) (EConst 3 1)) (EConst 3 1048576)) (EConst 3 255)).
+    (EBin B_AND 3 F0 (EBin B_SUB 3 F0 (EBin (if dec then B_SUB else B_ADD) 3 F0 (EReg 3 t) (EConst 3 1)) (EConst 3 1048576)) (EConst 3 255)).
 Definition i_zero : expr := EBin B_CMP_E 2 F0 (EReg 2 gI) (EConst 2 0).
 Definition mvl_prog (e1 e2 : expr) : list stmt :=
   [SSetReg 3 (gTEMP 3) e1; SSetReg 3 (gTEMP 2) e2; SIf i_zero 0 1; SLabel 1;
@@ -20,7 +23,7 @@ Definition mvl_prog (e1 e2 : expr) : list stmt :=
    SSetReg 2 gI (EBin B_SUB 2 F0 (EReg 2 gI) (EConst 1 1)); SIf i_zero 0 1; SLabel 0].
 
 (* next cell of a run inside internal memory *)
-Definition wnext (a : Z) : Z := ims + (a + 1 - ims) mod 256.
+Definition wnext (a : Z) : Z := ims + ((if dec then a - 1 else a + 1) - ims) mod 256.
 
 (* ---- register-file facts ----------------------------------------------------------------------- *)
 Definition TW (s : mstate) : Prop := length (y_t (rg s)) = NTEMP.
@@ -67,18 +70,25 @@ Proof. apply getr_temp_setr_o. reflexivity. Qed.
 (* ---- expression facts -------------------------------------------------------------------------- *)
 Lemma eval_upd s t a : getr s t = a -> ims <= a < ims + 256 -> eval_expr (upd_e t) s = Some (wnext a, s).
 Proof.
-  intros G Ha. rewrite ims_val in Ha. unfold upd_e, wnext. cbn [eval_expr]. rewrite G. cbn [eval_binop apply_flags].
-  rewrite (band3_small (a + 1)) by lia. rewrite (band3_small (a + 1 - 1048576)) by lia.
-  change 255 with (Z.ones 8). rewrite Z.land_ones by lia. change (2 ^ 8) with 256.
-  pose proof (Z.mod_pos_bound (a + 1 - 1048576) 256 ltac:(lia)) as Hm.
-  rewrite band3_small by lia. rewrite ims_val. reflexivity.
+  intros G Ha. rewrite ims_val in Ha. unfold upd_e, wnext. cbn [eval_expr]. rewrite G.
+  assert (D : (256 | 16777216)) by (exists 65536; reflexivity).
+  destruct dec; cbn [eval_binop apply_flags].
+  - rewrite (band3_small (a - 1)) by lia. rewrite (band3v (a - 1 - 1048576)).
+    change 255 with (Z.ones 8). rewrite Z.land_ones by lia. change (2 ^ 8) with 256.
+    rewrite <- (Zmod_div_mod 256 16777216) by (try lia; exact D).
+    pose proof (Z.mod_pos_bound (a - 1 - 1048576) 256 ltac:(lia)) as Hm.
+    rewrite band3_small by lia. rewrite ims_val. reflexivity.
+  - rewrite (band3_small (a + 1)) by lia. rewrite (band3_small (a + 1 - 1048576)) by lia.
+    change 255 with (Z.ones 8). rewrite Z.land_ones by lia. change (2 ^ 8) with 256.
+    pose proof (Z.mod_pos_bound (a + 1 - 1048576) 256 ltac:(lia)) as Hm.
+    rewrite band3_small by lia. rewrite ims_val. reflexivity.
 Qed.
 
 Lemma eval_i_zero s : eval_expr i_zero s = Some (b2z (getr s gI =? 0), s).
 Proof. reflexivity. Qed.
 
 Lemma wnext_range a : ims <= wnext a < ims + 256.
-Proof. unfold wnext. pose proof (Z.mod_pos_bound (a + 1 - ims) 256 ltac:(lia)). lia. Qed.
+Proof. unfold wnext. pose proof (Z.mod_pos_bound ((if dec then a - 1 else a + 1) - ims) 256 ltac:(lia)). lia. Qed.
 
 (* ---- one iteration ----------------------------------------------------------------------------- *)
 Definition mem_mv (m : Z -> Z) (d sr : Z) : Z -> Z := fun x => if x =? d then m sr else m x.
@@ -257,22 +267,28 @@ Proof.
 Qed.
 
 (* ---- the documented block move, as a function on memory ------------------------------------------ *)
-Lemma wrap_next a k : in_imem a = true -> wnext (wrap_imem a (a + k)) = wrap_imem a (a + (k + 1)).
+Definition stepk (a k : Z) : Z := if dec then a - k else a + k.
+
+Lemma wrap_next a k : in_imem a = true -> wnext (wrap_imem a (stepk a k)) = wrap_imem a (stepk a (k + 1)).
 Proof.
-  intros H. unfold wrap_imem, wnext. rewrite H.
-  replace (ims + (a + k - ims) mod 256 + 1 - ims) with ((a + k - ims) mod 256 + 1) by lia.
-  replace (a + (k + 1) - ims) with ((a + k - ims) + 1) by lia.
-  rewrite Z.add_mod_idemp_l by lia. reflexivity.
+  intros H. unfold wrap_imem, wnext, stepk. rewrite H. destruct dec.
+  - replace (ims + (a - k - ims) mod 256 - 1 - ims) with ((a - k - ims) mod 256 - 1) by lia.
+    replace (a - (k + 1) - ims) with ((a - k - ims) - 1) by lia.
+    rewrite Zminus_mod_idemp_l. reflexivity.
+  - replace (ims + (a + k - ims) mod 256 + 1 - ims) with ((a + k - ims) mod 256 + 1) by lia.
+    replace (a + (k + 1) - ims) with ((a + k - ims) + 1) by lia.
+    rewrite Z.add_mod_idemp_l by lia. reflexivity.
 Qed.
 
 Lemma spec_bm n : forall k t a b rs1 rs2, mem_wf t -> in_imem a = true -> in_imem b = true ->
-  let r := block_move n k (PlMem a 1 rs1 None) (PlMem b 1 rs2 None) false t in
-  rg r = rg t /\ halted r = halted t /\ (forall x, mem r x = bm n (wrap_imem a (a + k)) (wrap_imem b (b + k)) (mem t) x).
+  let r := block_move n k (PlMem a 1 rs1 None) (PlMem b 1 rs2 None) dec t in
+  rg r = rg t /\ halted r = halted t /\ (forall x, mem r x = bm n (wrap_imem a (stepk a k)) (wrap_imem b (stepk b k)) (mem t) x).
 Proof.
   induction n as [|n IH]; intros k t a b rs1 rs2 Hwf Ha Hb; cbv zeta.
   - cbn [block_move bm]. repeat split.
   - cbn [block_move elt bm]. replace (k * Z.of_N 1) with k by lia.
-    set (a' := wrap_imem a (a + k)). set (b' := wrap_imem b (b + k)).
+    change (if dec then a - k else a + k) with (stepk a k). change (if dec then b - k else b + k) with (stepk b k).
+    set (a' := wrap_imem a (stepk a k)). set (b' := wrap_imem b (stepk b k)).
     cbn [wr_place rd_place]. change (N.to_nat 1) with 1%nat. rewrite le_val_1.
     set (t' := store 1 t a' (mem t b')).
     assert (W' : mem_wf t').
@@ -286,10 +302,11 @@ Qed.
 Lemma in_imem_cell s m n : in_imem (fst (imem_cell s m n)) = true.
 Proof. pose proof (imem_cell_range s m n) as H. unfold in_imem. apply andb_true_intro. split; [apply Z.leb_le|apply Z.ltb_lt]; lia. Qed.
 
-Lemma wrap_self a : in_imem a = true -> wrap_imem a (a + 0) = a.
+Lemma wrap_self a : in_imem a = true -> wrap_imem a (stepk a 0) = a.
 Proof.
-  intros H. unfold wrap_imem. rewrite H. unfold in_imem in H. apply andb_prop in H. destruct H as [H1 H2].
-  apply Z.leb_le in H1. apply Z.ltb_lt in H2. replace (a + 0 - ims) with (a - ims) by lia. rewrite Z.mod_small by lia. lia.
+  intros H. unfold wrap_imem, stepk. rewrite H. unfold in_imem in H. apply andb_prop in H. destruct H as [H1 H2].
+  apply Z.leb_le in H1. apply Z.ltb_lt in H2. replace ((if dec then a - 0 else a + 0) - ims) with (a - ims) by (destruct dec; lia).
+  rewrite Z.mod_small by lia. lia.
 Qed.
 
 Lemma mvl_final dm sm n1 n2 x y s :
@@ -297,7 +314,7 @@ Lemma mvl_final dm sm n1 n2 x y s :
   let P := mvl_prog (imem_addr dm n1) (imem_addr sm n2) in
   let s1 := setr (setr s gPC x) gPC y in
   exists s', run (fuel_for P s1) P 0 s1 = RDone s' /\
-    arch_eqT s' (setr (block_move (N.to_nat (py_get (rg s) gI)) 0 (place_of s (LIMem 1 n1) dm) (place_of s (LIMem 1 n2) sm) false
+    arch_eqT s' (setr (block_move (N.to_nat (py_get (rg s) gI)) 0 (place_of s (LIMem 1 n1) dm) (place_of s (LIMem 1 n2) sm) dec
                          (setr s gPC y)) gI 0).
 Proof.
   intros Hwf HT HI Hn1 Hn2 P s1.
@@ -322,13 +339,15 @@ Proof.
   - cbn [setr with_rg halted]. rewrite H, R2. reflexivity.
 Qed.
 
-Definition mvl_is_spec : Prop :=
+End Loop.
+
+Definition mvl_is_spec (opc : N) : Prop :=
   forall c, In c pre_choices -> forall n1 n2, (n1 < 256)%N -> (n2 < 256)%N -> forall addr s,
   mem_wf s -> TW s -> (py_get (rg s) gI < 65536)%N ->
-  exists s' t, exec_decoded (mk_pre c 203 [OIMem 1 n1; OIMem 1 n2] 3) (first_byte c 203) addr s = XOk s' /\
-               spec_exec (mk_pre c 203 [OIMem 1 n1; OIMem 1 n2] 3) addr s = Some t /\ arch_eqT s' t.
+  exists s' t, exec_decoded (mk_pre c opc [OIMem 1 n1; OIMem 1 n2] 3) (first_byte c opc) addr s = XOk s' /\
+               spec_exec (mk_pre c opc [OIMem 1 n1; OIMem 1 n2] 3) addr s = Some t /\ arch_eqT s' t.
 
-Ltac mvl_case :=
+Ltac mvl_case dec cls :=
   let n1 := fresh "n1" in let n2 := fresh "n2" in let H1 := fresh "H1" in let H2 := fresh "H2" in
   let addr := fresh "addr" in let s := fresh "s" in let Hwf := fresh "Hwf" in let HT := fresh "HT" in let HI := fresh "HI" in
   intros n1 n2 H1 H2 addr s Hwf HT HI;
@@ -337,17 +356,23 @@ Ltac mvl_case :=
     match p with (SSetReg _ _ (imem_addr ?dm _) :: SSetReg _ _ (imem_addr ?sm _) :: _) =>
       match s1 with setr (setr _ gPC ?x) gPC ?y =>
         let s' := fresh "s'" in let E := fresh "E" in let AE := fresh "AE" in
-        destruct (mvl_final dm sm n1 n2 x y s Hwf HT HI H1 H2) as (s' & E & AE); cbv zeta in E;
-        change p with (mvl_prog (imem_addr dm n1) (imem_addr sm n2)); rewrite E;
-        eexists; eexists; split; [reflexivity|]; split; [spec_mem I_MVL; cbn [upd_block]; reflexivity|exact AE]
+        destruct (mvl_final dec dm sm n1 n2 x y s Hwf HT HI H1 H2) as (s' & E & AE); cbv zeta in E;
+        change p with (mvl_prog dec (imem_addr dm n1) (imem_addr sm n2)); rewrite E;
+        eexists; eexists; split; [reflexivity|]; split; [spec_mem cls; cbn [upd_block]; reflexivity|exact AE]
       end
     end
   end.
 
-Theorem mvl_imem_imem : mvl_is_spec.
+Theorem mvl_imem_imem : mvl_is_spec 203.
 Proof.
   intros c Hc. cbn [In pre_choices map] in Hc.
-  repeat (destruct Hc as [<- | Hc]; [mvl_case|]). destruct Hc.
+  repeat (destruct Hc as [<- | Hc]; [mvl_case false I_MVL|]). destruct Hc.
+Qed.
+
+Theorem mvld_imem_imem : mvl_is_spec 207.
+Proof.
+  intros c Hc. cbn [In pre_choices map] in Hc.
+  repeat (destruct Hc as [<- | Hc]; [mvl_case true I_MVLD|]). destruct Hc.
 Qed.
 
 (* the hypotheses are satisfiable, and the count is really unbounded below 2^16: e.g. I = 40000 *)
@@ -356,5 +381,7 @@ Definition mvl_example_state : mstate :=
 Lemma mvl_hypotheses_satisfiable : mem_wf mvl_example_state /\ TW mvl_example_state /\ (py_get (rg mvl_example_state) gI < 65536)%N.
 Proof. split; [intros a; cbn; lia|]. split; [reflexivity|]. vm_compute. reflexivity. Qed.
 
-Lemma mvl_opcode_check : (d_cls (entry_of 203), d_ops (entry_of 203)) = (I_MVL, [PIMem 1; PIMem 1]).
-Proof. vm_compute. reflexivity. Qed.
+Lemma mvl_opcode_check :
+  (d_cls (entry_of 203), d_ops (entry_of 203)) = (I_MVL, [PIMem 1; PIMem 1]) /\
+  (d_cls (entry_of 207), d_ops (entry_of 207)) = (I_MVLD, [PIMem 1; PIMem 1]).
+Proof. split; vm_compute; reflexivity. Qed.
